@@ -627,29 +627,35 @@ func (d *Decimal) Modf(integ, frac *Decimal) {
 
 	neg := d.Negative
 
+	// Either output may be d itself, so in every branch d is read before
+	// anything that could overwrite it is written.
+
 	// No fractional part.
 	if d.Exponent > 0 {
+		if integ != nil {
+			integ.Set(d)
+		}
 		if frac != nil {
+			frac.Form = Finite
 			frac.Negative = neg
 			frac.Exponent = 0
 			frac.Coeff.SetInt64(0)
 		}
-		if integ != nil {
-			integ.Set(d)
-		}
 		return
 	}
 	nd := d.NumDigits()
-	exp := -int64(d.Exponent)
+	dexp := d.Exponent
+	exp := -int64(dexp)
 	// d < 0 because exponent is larger than number of digits.
 	if exp > nd {
+		if frac != nil {
+			frac.Set(d)
+		}
 		if integ != nil {
+			integ.Form = Finite
 			integ.Negative = neg
 			integ.Exponent = 0
 			integ.Coeff.SetInt64(0)
-		}
-		if frac != nil {
-			frac.Set(d)
 		}
 		return
 	}
@@ -660,6 +666,7 @@ func (d *Decimal) Modf(integ, frac *Decimal) {
 	var icoeff *BigInt
 	if integ != nil {
 		icoeff = &integ.Coeff
+		integ.Form = Finite
 		integ.Exponent = 0
 		integ.Negative = neg
 	} else {
@@ -670,7 +677,8 @@ func (d *Decimal) Modf(integ, frac *Decimal) {
 
 	if frac != nil {
 		icoeff.QuoRem(&d.Coeff, e, &frac.Coeff)
-		frac.Exponent = d.Exponent
+		frac.Form = Finite
+		frac.Exponent = dexp
 		frac.Negative = neg
 	} else {
 		// This is the frac == nil, which means integ must not be nil since they both
